@@ -332,20 +332,6 @@ Definition c04_holds (c : c04_case) (obs : V) : bool :=
   | _ => false
   end.
 
-(* the part of the oracle for which C04_model_meets_spec_partial is proved: the binary
-   operators on operands of one arity, and purity *)
-Definition c04_holds_core (c : c04_case) (obs : V) : bool :=
-  let a := op_a c in
-  let b := op_b c in
-  let ops := k_ops c in
-  match obs with
-  | VL [r_and; r_andr; r_or; r_xor; r_sub; r_nand; r_nor; r_lf; r_fresh;
-        s_before; s_after; k_before; k_after] =>
-    (if k_mixed c then true else holds_binary a b r_and r_andr r_or r_xor r_sub)
-    && holds_pure ops r_fresh s_before s_after k_before k_after
-  | _ => false
-  end.
-
 (* known finding, region 1: a - b with a declared uncompressed.  The lazy result is iterated as
    a compressed fiber and skips the coordinates of a's active range whose payload is a default
    (absent, or stored explicit default / empty sub-fiber), so these coordinates — present in a
@@ -384,19 +370,12 @@ Definition wf_operand (o : operand) : bool :=
 Definition constrained (o : operand) : bool :=
   o_U o || match o_es o with [] => false | _ => true end.
 
-(* when tuple coordinates are involved, an operand with stored elements delivers at least one:
-   otherwise __and__ takes it for an int-coordinate fiber (arity 1), calls project() on it and
-   project() raises StopIteration — suspect S20, which belongs to C07 *)
-Definition s20_free (c : c04_case) : bool :=
-  if existsb (fun o => Nat.ltb 1 (op_arity o)) (k_ops c)
-  then forallb (fun o => match o_es o, stream o with _ :: _, [] => false | _, _ => true end)
-               (k_ops c)
-  else true.
-
+(* (An operand with stored tuple coordinates that delivers nothing — all payloads empty — is
+   taken by __and__ for an int-coordinate fiber, arity 1, and projected; since the S20 fix
+   project() handles it, and the model's and_op of an empty stream is [] on every path.) *)
 Definition wf_case (c : c04_case) : bool :=
   forallb wf_operand (k_ops c)
   && Nat.leb 2 (length (k_ops c))
-  && s20_free c
   && (if k_mixed c
       then forallb (fun o => negb (o_U o)) (k_ops c)
       else forallb (fun o => if constrained o
